@@ -251,7 +251,66 @@ def check_brace_probe(line):
     return out
 
 
+def check_many_placeholders():
+    """a document with far more than ten scaled values and several recipe blocks: each paragraph shows its own numbers, each block its own table"""
+    import html as pyhtml
+    paras = ["Step %d uses {%d} spoons and {%d/4} cups." % (i, i, i) for i in range(1, 16)]
+    blocks = ["    item%d = mix(%d g flour%d, water)" % (i, i, i) for i in range(1, 5)]
+    doc = "# Feast for 2\n\n" + "\n\n".join(paras[:8]) + "\n\n" + "\n\ntext\n\n".join(blocks) + "\n\n" + "\n\n".join(paras[8:]) + "\n"
+    mr = M.compile_markdown(doc)
+    out = []
+    for k in (1, 2, Fraction(3, 2)):
+        html = mr.render(k)
+        shown = [" ".join(pyhtml.unescape(re.sub(r"<[^>]*>", "", m)).split()) for m in re.findall(r"<p>(.*?)</p>", html, re.S)]
+        shown = [x for x in shown if x.startswith("Step ")]
+        want = [" ".join(brace_expected(p_, k).split()) for p_ in paras]
+        if shown != want:
+            bad = [(a, b) for a, b in zip(shown, want) if a != b][:2]
+            out.append(("C13:brace-expression-content-wrong", "document with %d scaled values at scale %r: %r" % (31, k, bad or (len(shown), len(want)))))
+            break
+        if html.count('<table class="rg-table"') != 4 or gen_md.PLACEHOLDER.search(html):
+            out.append(("C13:recipe-blocks-lost-or-residue", "scale %r: %d tables for 4 blocks, residue %r" % (k, html.count('<table class="rg-table"'), bool(gen_md.PLACEHOLDER.search(html)))))
+            break
+    return out
+
+
+FIXED_TEXTS = ["# Scones for 4\n\nRub in {50} g.\n\n    200 g flour\n    50 g butter\n\n# Notes\n\nServe {2} each.\n\n# More for 3\n\ntext\n",
+               "# One\n\n# Two\n\n    1 x\n\n# Three for 2\n",
+               "Intro {1}\n\n# Late title for 2\n\n    1 x\n\n# Another\n"]
+
+
+def check_fixed_text(text):
+    """no placeholder residue, no dependence on the random generator, the first plain top-level heading (only) is the title"""
+    out = []
+    results = []
+    for seed in (1, 2):
+        pyrandom.seed(seed)
+        mr = M.compile_markdown(text)
+        results.append([mr.render(k) for k in (1, 2)])
+        for h in results[-1]:
+            if gen_md.PLACEHOLDER.search(h):
+                out.append(("C13:placeholder-residue", "%r: %r" % (text[:40], gen_md.PLACEHOLDER.search(h).group(0))))
+                return out
+            if h.count("<header>") > 1:
+                out.append(("C13:more-than-one-title-header", "%r" % text[:40]))
+                return out
+    if results[0] != results[1]:
+        out.append(("C13:output-depends-on-random-state", "%r" % text[:40]))
+    first = re.search(r"^# (.*)$", text, re.M).group(1)
+    want = re.sub(r"\s+for \d+$", "", first)
+    if mr.title != want and text.startswith("# "):
+        out.append(("C13:title-is-not-the-first-heading", "%r: title %r" % (text[:40], mr.title)))
+    return out
+
+
 def oracle(run):
+    for text in FIXED_TEXTS:
+        run.case(("fixed-text", text), True, kind="fixed-text")
+        for sig, detail in check_fixed_text(text):
+            run.violate(sig, detail, {"fixed_text": text})
+    run.case(("many-placeholders",), True, kind="many-placeholders")
+    for sig, detail in check_many_placeholders():
+        run.violate(sig, detail, {"many_placeholders": True})
     for line in BRACE_PROBES:
         run.case(("brace-probe", line), True, kind="brace-probe")
         for sig, detail in check_brace_probe(line):
@@ -265,6 +324,16 @@ def oracle(run):
 
 def replay(run, obj):
     r = obj["replay"]
+    if "fixed_text" in r:
+        res = check_fixed_text(r["fixed_text"])
+        for x in res:
+            print(*x)
+        return bool(res)
+    if r.get("many_placeholders"):
+        res = check_many_placeholders()
+        for x in res:
+            print(*x)
+        return bool(res)
     if "brace_probe" in r:
         res = check_brace_probe(r["brace_probe"])
         for x in res:
